@@ -275,8 +275,10 @@ impl<'de> serde::Deserialize<'de> for MapType {
     where
         D: serde::Deserializer<'de>,
     {
-        let s = <&str>::deserialize(deserializer)?;
-        Ok(Self::new(s))
+        // Not all deserializers can lend out a &str (e.g. the one behind the
+        // import_types! macro).
+        let s = String::deserialize(deserializer)?;
+        Ok(Self::new(&s))
     }
 }
 
